@@ -16,7 +16,7 @@ def _one(i):
     src.cfg['p_cancel'] = 0.0
     src.cfg['trace_funcs'] = True
     r = runner.run_plan(src)
-    return [(x['name'], x['steps']) for x in r['records'] if x.get('outcome') == 'ok'], r['funcs_by_name']
+    return [(x['name'], x['steps'], x['calls']) for x in r['records'] if x.get('outcome') in ('ok', 'exc')], r['funcs_by_name']
 
 
 def main(argv):
@@ -24,16 +24,20 @@ def main(argv):
     runner.boot()
     per = {}
     funcs = {}
+    calls = {}
     with ProcessPoolExecutor(16, mp_context=mp.get_context('fork'), initializer=runner.boot) as ex:
         for lst, fb in ex.map(_one, range(n), chunksize=8):
-            for name, s in lst:
+            for name, s, k in lst:
                 per.setdefault(name, []).append(s)
+                calls.setdefault(name, []).append(k)
             for name, fs in fb.items():
                 funcs.setdefault(name, set()).update(fs)
     out = {k: int(statistics.median(v)) for k, v in sorted(per.items()) if v}
     p = os.path.join(os.path.dirname(__file__), 'steps.json')
     with open(p, 'w') as f:
         json.dump(out, f, indent=0, sort_keys=True)
+    with open(os.path.join(os.path.dirname(__file__), 'calls.json'), 'w') as f:
+        json.dump({k: int(statistics.median(v)) for k, v in sorted(calls.items()) if v}, f, indent=0, sort_keys=True)
     with open(os.path.join(os.path.dirname(__file__), 'funcs.json'), 'w') as f:
         json.dump(dict((k, sorted(v)) for k, v in sorted(funcs.items())), f, indent=0, sort_keys=True)
     from .catalogue import ENTRIES
